@@ -18,6 +18,7 @@ func init() {
 	commands["bytes-run"] = cmdBytesRun
 	commands["exterr-run"] = cmdExtErrRun
 	commands["conc-run"] = cmdConcRun
+	commands["preload-run"] = cmdPreloadRun
 	commands["pools-run"] = cmdPoolsRun
 	commands["health-walks"] = cmdHealthWalks
 }
